@@ -107,6 +107,8 @@ def gen_case(rng, struct_fields):
         c["field"] = rng.choice(names)
         c["rw"] = rng.choice(["r", "w"])
         c["seed"] = rng.randrange(1 << 30)
+    if rng.random() < 0.02 and c["len"] > 0 and op not in ("struct", "vcpu"):
+        c["addr"] = (1 << 32) - c["len"]        # the range ends with the very last byte of the address space
     n_cmds = (ln // max(buf & ~3, 1) + 3) * 5
     c["script"] = gen_script(rng, n_cmds, 4)
     return c
